@@ -110,7 +110,7 @@ def targets(t, cx):
     raise TranslationError('unsupported assignment target: ' + ast.unparse(t)[:80])
 
 
-def stmts(body, cx):
+def stmts(body, cx, top=True):
     out = []
     for s in body:
         if isinstance(s, ast.Expr) and isinstance(s.value, ast.Constant) and isinstance(s.value.value, str):
@@ -118,6 +118,8 @@ def stmts(body, cx):
         if isinstance(s, ast.Return):
             if s.value is None or ast.unparse(s.value) != 'scores':
                 raise TranslationError('return of something other than scores')
+            if not top or s is not body[-1]:
+                raise TranslationError('return that is not the last top-level statement')
             out.append('SReturn')
             continue
         if isinstance(s, ast.Expr) and isinstance(s.value, ast.Call) and ast.unparse(s.value.func) == 'kwargs.setdefault' \
@@ -152,7 +154,7 @@ def stmts(body, cx):
             c = s.test
             if isinstance(c, ast.Compare) and len(c.ops) == 1 and isinstance(c.ops[0], ast.IsNot) and is_kw_sub(c.left) \
                     and ast.unparse(c.comparators[0]) == 'None':
-                out.append('(SIfKwNotNone %s %s)' % (cstr(c.left.slice.value), lst(stmts(s.body, cx))))
+                out.append('(SIfKwNotNone %s %s)' % (cstr(c.left.slice.value), lst(stmts(s.body, cx, False))))
                 continue
             if isinstance(c, ast.Compare) and len(c.ops) == 1 and isinstance(c.ops[0], ast.NotIn) \
                     and ast.unparse(c.comparators[0]) == 'kwargs' and isinstance(c.left, ast.Constant):
@@ -164,7 +166,7 @@ def stmts(body, cx):
             names = {x.id for x in ast.walk(c) if isinstance(x, ast.Name)}
             if 'kwargs' in names or 'scores' in names or (names & cx.locals):
                 raise TranslationError('condition on kwargs/scores/locals outside the fragment: ' + ast.unparse(c)[:100])
-            out.append('(SIfOpaque %s %s)' % (cstr(ast.unparse(c)), lst(stmts(s.body, cx))))
+            out.append('(SIfOpaque %s %s)' % (cstr(ast.unparse(c)), lst(stmts(s.body, cx, False))))
             continue
         raise TranslationError('unsupported statement: ' + ast.unparse(s)[:120])
     return out
